@@ -464,9 +464,13 @@ func (d *depFn) call(in ssa.Instruction, c *ssa.CallCommon, res ssa.Value, upd f
 			}
 			return
 		case "len", "cap":
+			// a length carries no content: only the label "len:<what>"
 			if res != nil {
-				upd(d.depOf(res).union(*d.depOf(args[0])))
-				upd(d.depOf(res).add(d.label("len:" + args[0].Name())))
+				n := args[0].Name()
+				if par, ok := stripToRoot(args[0]).(*ssa.Parameter); ok {
+					n = "param:" + par.Name()
+				}
+				upd(d.depOf(res).add(d.label("len:" + n)))
 			}
 			return
 		default:
